@@ -135,7 +135,7 @@ theorem syncCreateTasks_existing (s X : Sys) (jo : JobObj) (T : List Task) (h : 
     (hdue : DueReq s.clock (theReq s.d jo.job).earliest) (p : PodObj) (t : Task)
     (hcr : apiCreatePod s jo s.d (theReq s.d jo.job).retryIndex = (X, .exists))
     (hfind : findPod X.podCache (taskName jo.name s.d.hash (theReq s.d jo.job).retryIndex) = some p)
-    (hown : p.ownerUid = some jo.uid) (ht : podTask p = some t) :
+    (hown : p.ownerUid = some jo.uid) (ht : podTask s.clock p = some t) :
     syncCreateTasks s jo jo.job T =
       ((updateTaskRefStatus (armEarliest X (jobKey jo) (theReq s.d jo.job).earliest) (jobKey jo) jo.job (T ++ [t])).1,
        some ((updateTaskRefStatus (armEarliest X (jobKey jo) (theReq s.d jo.job).earliest) (jobKey jo) jo.job
